@@ -100,6 +100,7 @@ DistLabel(c, S, t) ==
      ELSE IF WFar + 1 \in d THEN "d=wfar+1" ELSE IF WClose - 1 \in d THEN "d=wclose-1"
      ELSE IF \E x \in d : x > WFar THEN "d>wfar" ELSE "d<wclose"
 
+DLab(kind, d) == kind \o (IF d = 0 THEN "/par=num" ELSE IF d = 1 THEN "/par=num-1" ELSE "/par=num-2")
 Probes(c, S) ==
   LET D   == Default(c)
       m   == Len(c)
@@ -141,6 +142,20 @@ Probes(c, S) ==
   \cup {P(c, S, "uncle_count", IF n = MaxUncles THEN "max" ELSE "max+1",
            [D EXCEPT !.uncles = SubSeq([i \in 1..(n + 1) |-> [U(r) EXCEPT !.v = i - 1]], 1, n)]) :
           r \in {x \in one : x.k = "s"}, n \in {MaxUncles, MaxUncles + 1}}
+  \* descent by number: a fabricated child of (a) a valid uncle embedded in the same block, (b) an uncle embedded by an
+  \* ancestor, (c) a main-chain block; claiming parent.number + 0 | 1 | 2
+  \cup {P(c, S, "uncle_descent_number", DLab("same-block", d), [D EXCEPT !.uncles = <<U(r), Fab("cs", r.i, d)>>]) :
+          r \in {x \in okrefs : x.k = "s"}, d \in 0..2}
+  \cup {P(c, S, "uncle_descent_number", DLab("fab-same-block", d), [D EXCEPT !.uncles = <<Fab("cm", h, 1), Fab("cc", h, d)>>]) :
+          h \in {x \in {m - 3} : x >= 0}, d \in 0..2}
+  \cup {P(c, S, "uncle_descent_number", "fab-child-first", [D EXCEPT !.uncles = <<Fab("cc", h, 1), Fab("cm", h, 1)>>]) :
+          h \in {x \in {m - 3} : x >= 0}}
+  \cup {P(c, S, "uncle_descent_number", "fab-child-alone", [D EXCEPT !.uncles = <<Fab("cc", h, 1)>>]) :
+          h \in {x \in {m - 3} : x >= 0}}
+  \cup {P(c, S, "uncle_descent_number", DLab("anc-embedded", d), [D EXCEPT !.uncles = <<Fab("cs", r.i, d)>>]) :
+          r \in {x \in Embedded(c) : x.k = "s"}, d \in 0..2}
+  \cup {P(c, S, "uncle_descent_number", DLab("main", d), [D EXCEPT !.uncles = <<Fab("cm", h, d)>>]) :
+          h \in {x \in {m - 3, m - 2, m - 1} : x >= 0}, d \in 0..2}
   \cup {P(c, S, "uncle_target", "t", [D EXCEPT !.uncles = <<[U(r) EXCEPT !.target = t]>>]) :
           r \in one, t \in {"epoch", "other"}}
   \cup {P(c, S, "uncle_proposals", x, [D EXCEPT !.uncles = <<[U(r) EXCEPT !.pv = x]>>]) :
@@ -176,7 +191,7 @@ CommitsOK == \A h \in DOMAIN chain : \A t \in Rng(chain[h].commits) :
 MedianMonotone == \A h \in 1..Len(chain) : MedianHi(Prefix(chain, h - 1)) <= MedianHi(Prefix(chain, h))
 \* a single-field mutation of the default block breaks rules of its own family only
 FamilyRules(f) ==
-  CASE f \in {"uncle_single", "uncle_pair"} -> {"uncle_epoch", "uncle_number", "uncle_descent", "uncle_double"}
+  CASE f \in {"uncle_single", "uncle_pair", "uncle_descent_number"} -> {"uncle_epoch", "uncle_number", "uncle_descent", "uncle_double"}
     [] f = "commit_window" -> {"commit_window", "tx_valid"}
     [] f = "cycles" -> {"cycles"}
     [] OTHER -> {f}
